@@ -25,7 +25,8 @@ pub fn profile() -> Profile {
     p.ty = TyProfile::full();
     p.ty.f64_ = false;
     p.ty.friendly = 5;
-    p.ty.max_array = 4;
+    // arrays beyond serde's 32-element limit occur too (wide width reads derive lists without compiling)
+    p.ty.max_array = 40;
     p.groups = (0, 2);
     p.bindings = (1, 3);
     p.w_buf = 8;
